@@ -105,7 +105,7 @@ PROPS = {
         'scope': [
             ('message', r'^ZmqMessage::', A, None),
             ('reqrep', r'^ZmqMessage::(push_front|pop_front|prepend|split_off|len|is_empty)$', A, None),
-            ('reqrep', r'^ReqSocket::send$', F, r'req_sent_to|returned_intact'),
+            ('reqrep', r'^ReqSocket::send$', F, None),
             ('reqrep', r'^ReqSocket::send$', S, None),
             ('reqrep', r'^ReqSocket::recv$', F, r'req_received_from'),
             ('reqrep', r'^ReqSocket::recv$', S, None),
